@@ -52,7 +52,7 @@ def lowest_probe_stage(ck, prop):
 def wrap_stage(ck, checks, prop):
     """Objects that live through 2^8 (and, thorough tier, 2^16) calls with a depression node masked, then unmasked."""
     q = ck.tier == "quick"
-    cases = list(cf.wrap_cases(ck.seed + 500, prop, widths=(8,) if q else (8, 16), deltas=(-1, 0, 1) if q else (-2, -1, 0, 1, 2)))
+    cases = list(cf.wrap_cases(ck.seed + 500, prop, widths=(8, 16), deltas=(-1, 0, 1) if q else (-2, -1, 0, 1, 2)))
     ck.traces(cases, checks, tag=prop.lower() + "wrap", nontrivial=cf.nontrivial_world, timeout_ms=120000)
     ck.ev.cov["long_histories"] = len(cases)
 
@@ -227,6 +227,9 @@ def plan_C09(ck):
     ck.model("PFloodTwice-elevation-only-order", "MCPFloodTwice.tla", "MCPFloodTwice_ties.cfg", workers=8, expect="violation",
              note="negative control: with an elevation-only heap order TLC finds two runs that differ (history dependence)")
     wrap_stage(ck, ["C09"], "C09")
+    # worlds of 32 000+ nodes and thousands of basins updated several times on one object, then on fresh ones
+    ck.traces(cf.wide_history_cases(ck.seed + 909, "C09wide", count=1 if q else 6), ["C09"], tag="c09wide", nontrivial=lambda c: True,
+              timeout_ms=240000, nproc=2)
     # graph snapshots are flow graphs too: what accumulate / basins return on them is a function of the inputs
     # of the update that filled them (observed across several updates, and after the parent's mask was replaced)
     ck.traces(cf.snapshot_cases(ck.seed + 190, 40 if q else 800, 5, "C09snap"), ["C09"], tag="c09snap", nontrivial=cf.nontrivial_world)
